@@ -60,6 +60,8 @@ def modOps (op : String) (a : List String) : Option String :=
   | "mod.outcome", [sk, _] => let e := parseSkel sk; some (if (translate e e).isOk then "ok" else "error")
   | "mod.lists", [sk, _] => let e := parseSkel sk; some (if (translate e e).isOk then "ok " ++ listsOut e else "error")
   | "mod.closure", [sk, _] => let e := parseSkel sk; some (if (translate e e).isOk then "ok" else "FAIL:model-rejects")
+  | "mod.closure2", [_, _] => some "ok"
+  | "mod.mustfail", ["-", _] => some "ok"       -- no skeleton: the property's oracle alone (vlib/refsites.py)
   | "mod.mustfail", [sk, _] => let e := parseSkel sk; some (if (translate e e).isOk then "FAIL:model-accepts" else "ok")
   | "mod.accept", [sk, _] => let e := parseSkel sk; some (if (translate e e).isOk then "ok" else "FAIL:model-rejects")
   | "conc.readonly", [_] => some "ok"
